@@ -4,6 +4,21 @@ import json, os
 ROOT = os.path.dirname(os.path.dirname(os.path.abspath(__file__)))
 
 CHECKS = {
+ "C07": dict(
+   text="All module file sets within the bounds (2-3 files, <= 2-3 declarations each from a menu of 11, plus malformed members) x every permutation of the file list x schema versions x map-iteration schedules of the merger: success exactly when the reference merge over the generator's declarations says so; on success the exact attributed union (also via GetModuleForObjectTypeRelation) and the requested schema version; on failure no model, no panic, and for every reference conflict an error naming a participating file.",
+   note="File names within a set are distinct; 'names the offending file' is demanded for the four conflict kinds only (parse failures and 'file is not a module' have no file field in the API).",
+   technique="bounded exhaustive enumeration of file sets x permutations x map schedules against a reference merge",
+   design="3/C07"),
+ "C12": dict(
+   text="The same file sets x all permutations of the file list x all map-iteration schedules of the merger within 2/3 deviations (all orders for the small maps these sets produce): identical model or identical error list (message, file, line, column, order) on every schedule; same verdict and, on success, equal models up to type-definition order across permutations.",
+   note="Every permutation of a map is a behaviour the Go specification allows; map order is owned by build-time source rewriting.",
+   technique="exhaustive exploration of map-iteration schedules and input permutations with a differential oracle",
+   design="3/C12"),
+ "C16": dict(
+   text="(bounds) every string of <= 3/4 lexemes appended to 10 valid document prefixes: every syntax error lies inside the input; (exact) every listener-level injection at every site x layouts: the error stands on the offending name according to the renderer's source map; (merge) every conflict-carrying file set plus look-alike sets x file orders x layout styles: File and Line are those of a conflicting declaration.",
+   note="Positions are read from the public Error() text / exported fields; lines split on \\n, columns in code points; merge error columns are not claimed by the property.",
+   technique="bounded exhaustive enumeration of texts and injections x layouts with a source-map oracle",
+   design="3/C16"),
  "C09": dict(
    text="Valid base models x every single injection from the catalogue of structural rule violations x every injection site (operand position, nesting depth, declaration position) x renderings; both DSL entry points must return a non-nil error and no model.",
    note="Each injected text is invalid by construction against the pinned grammar and listener rules; bases are accepted (C03).",
